@@ -26,6 +26,9 @@ var pool = []arg{
 	{"octets", "(coerce '(1 2 3) 'octets)"}, {"hash-table", "(make-hash-table)"}, {"package", "(find-package 'cl)"},
 	{"string-stream", "(make-string-input-stream \"a b\")"}, {"out-stream", "(make-string-output-stream)"},
 	{"time", "@2024-01-02T03:04:05Z"}, {"values", "(values 1 2)"}, {"no-values", "(values)"},
+	// designators and ragged structures (added after seeded changes C09-1 and C09-3 were missed)
+	{"pkg-symbol", "'keyword"}, {"pkg-keyword", ":keyword"}, {"pkg-string", "\"keyword\""}, {"ragged-alist", "'((a . 1) (b))"},
+	{"list-of-empty", "'(())"}, {"list-of-list1", "'((a))"}, {"plist", "'(:a 1 :b)"}, {"neg-big", "-4611686018427387905"},
 }
 
 // the kinds that most often sit on the edge of a missing check; used for the quick 2-tuple grid
